@@ -406,6 +406,23 @@ func checkC04(c *Check) {
 			g2, _ := guardedBy(ap, valid, isInstr(s))
 			g3, _ := guardedBy(ap, tagOK, isInstr(s))
 			c.Cond(okF && okV && g1 && g2 && g3 && len(canSet) > 0 && len(valid) > 0 && len(tagOK) > 0, key+":set", p.Pos(s.Pos()), "f.Set(Value(f.Type())) under CanSet ∧ tag(i) present ∧ IsValid", "Apply can set a field that is not settable/tagged, or with an invalid or wrongly typed value")
+			// an error is reported only for a field that is settable and tagged: a field that cannot be injected
+			// anyway must not fail the call (nor stop the fields after it from being filled)
+			okErr := true
+			nErr := 0
+			allInstrs(ap, func(in ssa.Instruction) {
+				r, isR := in.(*ssa.Return)
+				if !isR || len(r.Results) != 1 || vNil(r.Results[0]) {
+					return
+				}
+				nErr++
+				e1, _ := guardedBy(ap, canSet, isInstr(r))
+				e2, _ := guardedBy(ap, tagOK, isInstr(r))
+				if !e1 || !e2 {
+					okErr = false
+				}
+			})
+			c.Cond(okErr && nErr > 0, key+":error-only-for-injectable", p.FuncPos(ap), "the missing-value error is returned only under CanSet ∧ tag(i) present", "Apply reports a missing value for a field that is not settable or not tagged (it could not be injected anyway): the call fails and the remaining fields stay unfilled")
 			inval := edgesWhere(ap, cBool(vCall("(reflect.Value).IsValid", vIs(v))), false)
 			bad := len(inval) == 0
 			for e := range inval {
